@@ -572,3 +572,7 @@ _add(
     "C38",
     m("subrun-defaults-outrank-exports", S, "        **subrun.get_task_options(),\n        **parent_job.get_export_options(),\n        **sexpr._options,\n", "        **parent_job.get_export_options(),\n        **subrun.get_task_options(),\n        **sexpr._options,\n", "C38.6"),
 )
+_add(
+    "C21",
+    m("cached-catch-expression-unlinked", S, "            derive_expression(cached_expr, sexpr)\n", "", "C21.8"),
+)
